@@ -267,6 +267,40 @@ theorem run_shape :
     Gen.FactsC19.sendCalls = 1 ∧
     Gen.FactsC19.pullErrorReturns = true := by decide
 
+/-! ### The data path below `pull`: a failed read is a failed pull, never "key absent" -/
+
+/-- A failed `client.Get` makes `syncer.pull` fail, for a key and for a prefix … -/
+theorem pull_error_is_failure (pfx : Bool) : pull pfx .error = none := by
+  cases pfx <;> rfl
+
+/-- … a failed pull delivers nothing and leaves `data` alone (so an outage of the store can
+neither produce a phantom "absent" snapshot nor a duplicate after it) … -/
+theorem failed_pull_sends_nothing (S : Nat → Data) (st : St) (pfx : Bool) :
+    pullCompareSend S st ((pull pfx .error).map fun _ => 0) = st := by
+  rw [pull_error_is_failure]; rfl
+
+/-- … and a successful read is mapped faithfully: `GetRaw` gives the key-value or nil without
+error, `pull` the empty map exactly when the key is absent. -/
+theorem pull_ok_mapping (kv : KV) (rest : List KV) :
+    getRaw .error = (none, true) ∧ getRaw (.kvs []) = (none, false) ∧
+    getRaw (.kvs (kv :: rest)) = (some kv, false) ∧
+    get .error = (none, true) ∧ get (.kvs []) = (none, false) ∧ get (.kvs (kv :: rest)) = (some kv.value, false) ∧
+    pull false (.kvs []) = some [] ∧ pull false (.kvs (kv :: rest)) = some [(kv.key, some kv)] ∧
+    pull true (.kvs (kv :: rest)) = some ((kv :: rest).map fun x => (x.key, some x)) ∧
+    (getRawPrefix .error).2 = true ∧ (getPrefix .error).2 = true := by
+  refine ⟨rfl, rfl, rfl, rfl, rfl, rfl, rfl, rfl, rfl, rfl, rfl⟩
+
+/-- Facts obligation on `pkg/cluster/op.go` and `syncer.pull`, regenerated on every run: the
+getters return the error when `err != nil` (and only then), not-found is `(nil, nil)`, and
+`pull` hands the error on in both branches. -/
+theorem pull_data_path :
+    Gen.FactsC19.getRawShape = ["if err != nil { return nil, err }", "if err != nil { return nil, err }",
+      "if len(resp.Kvs) == 0 { return nil, nil }", "return resp.Kvs[0], nil"] ∧
+    Gen.FactsC19.getShape = ["if err != nil || kv == nil { return nil, err }", "return &value, nil"] ∧
+    Gen.FactsC19.getRawPrefixShape = ["if err != nil { return kvs, err }", "if err != nil { return kvs, err }", "return kvs, nil"] ∧
+    Gen.FactsC19.getPrefixShape = ["if err != nil { return kvs, err }", "return kvs, nil"] ∧
+    Gen.FactsC19.pullKeyErrorPropagates = true ∧ Gen.FactsC19.pullPrefixErrorPropagates = true := by decide
+
 /-! ### Non-vacuity -/
 
 private def kvA : Option KV := some ⟨"p/a", "1"⟩
